@@ -1,5 +1,6 @@
 # Copyright (c) 2007-2009 PediaPress GmbH
 # See README.md for additional licensing information.
+import re
 from contextlib import suppress
 
 from mwlib.parser.templ import DEBUG, log, magics
@@ -59,7 +60,14 @@ class IfEqNode(Node):
         res.append(dummy_mark)
 
 
+# what PHP's is_numeric() accepts (MediaWiki compares such strings by value): Python's int()/float()
+# would also take "1_0", "inf", "nan" and non-ASCII digits
+_numeric_rx = re.compile(r"[+-]?(?:[0-9]+\.?[0-9]*|\.[0-9]+)(?:[eE][+-]?[0-9]+)?\Z")
+
+
 def maybe_numeric(a):
+    if not isinstance(a, str) or not _numeric_rx.match(a):
+        return None
     try:
         return int(a)
     except ValueError:
